@@ -75,6 +75,9 @@ def main() -> None:
             texts.append(t)
     texts += ["def 0 {\n    a(Position<'m', 1, 2>, Position<\"n\", 3.5, 4>); b(Position<'o', 5, 6.5>);\n}\n",
               "def 0 {\n    a(Position<'first', 1, 1>);\n}\nmacro late() {\n    b(Position<'second', 2, 2>);\n}\ndef 1 {\n    ~late();\n    c(Position<'third', 3, 3>);\n}\n",
+              # names with escapes: the listed name is the name of the compiled parameter, whatever the quote style
+              "def 0 {\n    a(Position<'a \\\"b\\\" c', 1, 2>, Position<\"don\\'t\", 3, 4.5>);\n    b(Position<'two\\nlines', 5, 6>, Position<\"it's \\\"q\\\"\", 7.5, 8>);\n"
+              "    c(Position<'it\\'s', 9, 10>, Position<'back\\\\slash', 11, 12>);\n}\n",
               "macro m($a) {\n    x($a, Position<'in macro', 7, 8>);\n}\ndef 0 {\n    ~m(Position<'arg', 1.5, 2.5>);\n"
               "    switch (ProcessSpecial(Position<'hdr', 9, 9>)) {\n        case 1:\n            y();\n    }\n}\n"]
     preps = run_impl([("checks.c18:prepare", t, f"C18-{run.seed}-{i}", j) for i, t in enumerate(texts) for j in range(3 if q else 6)])
